@@ -228,6 +228,32 @@ def search_copies(ck: Ck) -> None:
 BOUNDARY = {str: ['', '0', ' '], int: [0, 1, -1, 2, 7], float: [0.0, 0.25, -3.5], bool: [False, True]}
 
 
+def _optional_scalar(o: Any, f: str) -> type | None:
+    """str / int / float / bool when the class declares the field `Optional[<that>]` (run-time annotations), else None."""
+    import typing
+    for k in type(o).__mro__:
+        ann = getattr(k, '__annotations__', {}).get(f)
+        if ann is not None:
+            args = typing.get_args(ann)
+            if len(args) == 2 and type(None) in args:
+                t = args[0] if args[1] is type(None) else args[1]
+                return t if t in BOUNDARY else None
+            return None
+    return None
+
+
+def boundary_values(o: Any, f: str, val: Any) -> list | None:
+    """The boundary values to try for field f of o (current value val): by the run-time type of the value; a field
+    declared Optional[scalar] is also tried with None, and when it currently IS None with the scalar's values."""
+    t = type(val)
+    if t in BOUNDARY:
+        return BOUNDARY[t] + ([None] if _optional_scalar(o, f) is t else [])
+    if val is None:
+        t2 = _optional_scalar(o, f)
+        return list(BOUNDARY[t2]) if t2 is not None else None
+    return None
+
+
 def run_boundary_case(kind: str, case_seed: int, variant: str) -> list[dict]:
     """One scalar field at a time: every str/int/float/bool data field of every map object reachable from a generated
     object is set to each boundary value of its type (falsy values, the values a constructor flag would map to, a value
@@ -248,12 +274,12 @@ def run_boundary_case(kind: str, case_seed: int, variant: str) -> list[dict]:
             continue
         for lab, val in U.children(o):
             f = lab[1:]
-            if not lab.startswith('.') or f == 'id' or type(val) not in BOUNDARY or (type(o).__name__, f) in done:
+            if not lab.startswith('.') or f == 'id' or boundary_values(o, f, val) is None or (type(o).__name__, f) in done:
                 continue
             done.add((type(o).__name__, f))      # one object per (class, field) and case
             todo.append((o, f, val, path))
     for o, f, val, path in todo:
-        for b in BOUNDARY[type(val)]:
+        for b in boundary_values(o, f, val) or []:
             if b == val and type(b) is type(val):
                 continue
             try:
@@ -629,10 +655,11 @@ def corr_flows_runtime(ck: Ck, side: dict) -> None:
                     except AttributeError:
                         bad.append((lab, f, 'attribute missing at run time', ''))
                         continue
-                    if type(val) not in BOUNDARY:
+                    bvals = boundary_values(tgt, f, val)
+                    if bvals is None:
                         skipped.add((lab, f, type(val).__name__))
                         continue
-                    for b in BOUNDARY[type(val)]:
+                    for b in bvals:
                         try:
                             setattr(tgt, f, b)
                         except (AttributeError, TypeError, ValueError):
